@@ -47,7 +47,7 @@ def generate(rng, tier):
         t += 0.01
     t = rng.choice([2.0, 2.0, 40.0, 1300.0])
     qid = 1
-    nq = rng.choice([1, 2, 3, 4, 6])
+    nq = rng.choice([1, 2, 3, 4, 6] + ([9, 14] if tier == "thorough" else []))
     for _ in range(nq):
         t += rng.choice(GRID) if rng.random() < 0.7 else rng.random() * 1.5
         peer = rng.choice(["Q1", "Q1", "Q2"])
